@@ -475,6 +475,52 @@ func runProfile(cfg runCfg, prof string) error {
 				}
 			}
 		}
+		onlyDenials := true // the healthy run reported nothing but removed fields (a failed execution is another matter: KF-key-not-permitted)
+		for _, e := range run.Resp.Errors {
+			if !strings.HasSuffix(e.Message, "access disallowed") {
+				onlyDenials = false
+			}
+		}
+		if prof == "c03" && i%3 == 0 && onlyDenials {
+			// the same request once more over services that break their own schemas in one way: null elements stay inside
+			// [T!] lists (null propagation in the gateway then gives up altogether).  Beyond the property's quantifier, which
+			// has healthy services; but what the permissions removed does not depend on what the services answer, and it
+			// must be reported as in the run above
+			saved := env.world.data
+			env.world.data, env.world.laxLists = genData(r, env.fed, dataOpts{nullProb: 0.1, safeStrings: true, nullElems: 0.3}), true
+			run2, err2 := env.run(q, vars, hdr)
+			env.world.data, env.world.laxLists = saved, false
+			if err2 == nil {
+				denied := func(rr *e2eRun) string {
+					var d []string
+					for _, e := range rr.Resp.Errors {
+						if strings.HasSuffix(e.Message, "access disallowed") {
+							d = append(d, e.Message)
+						}
+					}
+					sort.Strings(d)
+					return strings.Join(d, " | ")
+				}
+				a, b := denied(run), denied(run2)
+				judged := true // an execution that fails because ids cannot be read (KF-key-not-permitted) is not what this run is about
+				for _, e := range run2.Resp.Errors {
+					if strings.Contains(e.Message, "FromMap") || strings.Contains(e.Message, "extractBoundaryIDs") || strings.Contains(e.Message, "internal system error") {
+						judged = false
+					}
+				}
+				if !judged {
+					sum.Features["rule_breaking_run_not_judged"]++
+				}
+				sum.GoOracle = append(sum.GoOracle, oracleResult{Case: name, Component: "prop.c03.denied_fields_reported_whatever_the_services_answer", OK: a == b || !judged,
+					Detail: fmt.Sprintf("over services leaving nulls in [T!] lists the response reports [%s] (all errors: %v), over healthy ones [%s]", b, errorSummary(run2.Resp.Errors), a)})
+				if strings.Contains(run2.Resp.Body, "unxpected result type") {
+					sum.Features["null_propagation_gave_up"]++
+					if a != "" {
+						sum.Features["null_propagation_gave_up_with_denied_fields"]++
+					}
+				}
+			}
+		}
 		if prof == "c16" && len(faults) == 0 {
 			// the same document text once more on the same gateway: after a caller who may use only the first root field, and
 			// after ANOTHER operation of the same document that shares a fragment with this one.  What an earlier request did
